@@ -1,9 +1,173 @@
 import NibabelModel.Model.C19
 import Driver.Util
-/-! Line-protocol driver for C19: `C19 <op> <args...>` -> one observable line. -/
+/-! Line-protocol driver for C19: `C19 <op> <args...>` -> one observable line.
+
+  geom  <readMeta 0|1> <stamp hex> <nv> <nf> <coords u32,..|-> <faces int,..|-> <vol>
+        vol = `-` | `head;valid;filename;volume;voxelsize;xras;yras;zras;cras`
+              (head: ints `,`-separated; valid/filename: hex; the six vectors: hex tokens `,`-separated)
+  morph <shape n,..|-> <vals u32,..|-> <fnum>
+  annot <origIds 0|1> <fill 0|1> <has5 0|1> <labels int,..|-> <rows r:g:b:t:a;..|-> <names hex;..|->
+  mgh   <shape> <dtype> <data u32,..|-> <affDelta u32,u32,u32> <setZ `_`|u32,..|-> <ftrSets i:v;..|->
+  zoom  <shape> <zs u32,..|->          bare MGHHeader: set_data_shape(shape); set_zooms(zs)
+  hex tokens: `-` = empty byte string inside `;`/space separated fields, `_` inside `,` lists. -/
 namespace Nb.Drv.C19
+open Nb Nb.C19
+
+def hexVal (c : Char) : Option Nat :=
+  if '0' ≤ c ∧ c ≤ '9' then some (c.toNat - 48)
+  else if 'a' ≤ c ∧ c ≤ 'f' then some (c.toNat - 87) else none
+
+def parseHexGo : List Char → Option Bytes
+  | [] => some []
+  | a :: b :: r => do
+    let x ← hexVal a
+    let y ← hexVal b
+    let t ← parseHexGo r
+    pure ((16 * x + y) :: t)
+  | _ => none
+
+def parseHex? (s : String) : Option Bytes :=
+  if s = "-" ∨ s = "_" then some [] else parseHexGo s.toList
+
+def hexDigit (n : Nat) : Char := if n < 10 then Char.ofNat (48 + n) else Char.ofNat (87 + n)
+
+def hexOf (bs : Bytes) : String :=
+  if bs.isEmpty then "-" else String.ofList (bs.flatMap fun b => [hexDigit (b / 16), hexDigit (b % 16)])
+
+def parseHexList? (sep : String) (s : String) : Option (List Bytes) :=
+  if s = "-" then some [] else (s.splitOn sep).mapM parseHex?
+
+def showHexList (l : List Bytes) : String :=
+  "[" ++ ",".intercalate (l.map hexOf) ++ "]"
+
+def errStr : Err → String
+  | .short => "ERR:short"
+  | .value => "ERR:ValueError"
+  | .index => "ERR:IndexError"
+  | .overflow => "ERR:OverflowError"
+  | .os => "ERR:OSError"
+  | .exc => "ERR:Exception"
+  | .hdrData => "ERR:HeaderDataError"
+  | .mgh => "ERR:MGHError"
+  | .key => "ERR:KeyError"
+  | .unmodelled => "ERR:unmodelled"
+
+def parseBool? (s : String) : Option Bool :=
+  if s = "0" then some false else if s = "1" then some true else none
+
+def parseVol? (s : String) : Option (Option VolInfo) :=
+  if s = "-" then some none else
+  match s.splitOn ";" with
+  | [h, v, f, vol, vox, x, y, z, c] => do
+    let h ← parseIntList? h
+    let v ← parseHex? v
+    let f ← parseHex? f
+    let vol ← parseHexList? "," vol
+    let vox ← parseHexList? "," vox
+    let x ← parseHexList? "," x
+    let y ← parseHexList? "," y
+    let z ← parseHexList? "," z
+    let c ← parseHexList? "," c
+    pure (some ⟨h, v, f, vol, vox, x, y, z, c⟩)
+  | _ => none
+
+def asciiOk (vi : VolInfo) : Bool :=
+  (vi.valid ++ vi.filename ++ (vi.volume ++ vi.voxelsize ++ vi.xras ++ vi.yras ++ vi.zras ++ vi.cras).flatten).all (· < 128)
+
+def showVol : Option VolInfo → String
+  | none => "-"
+  | some v => "head=" ++ showList v.head ++ ";valid=" ++ hexOf v.valid ++ ";filename=" ++ hexOf v.filename ++
+      ";volume=" ++ showHexList v.volume ++ ";voxelsize=" ++ showHexList v.voxelsize ++
+      ";xras=" ++ showHexList v.xras ++ ";yras=" ++ showHexList v.yras ++ ";zras=" ++ showHexList v.zras ++
+      ";cras=" ++ showHexList v.cras
+
+def parseRow? (s : String) : Option Row :=
+  match (s.splitOn ":").mapM (·.toInt?) with
+  | some [r, g, b, t, a] => some ⟨r, g, b, t, a⟩
+  | _ => none
+
+def parseRows? (s : String) : Option (List Row) :=
+  if s = "-" then some [] else (s.splitOn ";").mapM parseRow?
+
+def showRow (c : Row) : String := showList [c.r, c.g, c.b, c.t, c.a]
+
+def parseSets? (s : String) : Option (List (Nat × Nat)) :=
+  if s = "-" then some [] else
+    (s.splitOn ";").mapM fun p =>
+      match (p.splitOn ":").mapM (·.toNat?) with
+      | some [i, v] => if i < 5 then some (i, v) else none
+      | _ => none
+
+def parseOptNatList? (s : String) : Option (Option (List Nat)) :=
+  if s = "_" then some none else (parseNatList? s).map some
+
+def allBytes (bs : Bytes) : Bool := bs.all (· < 256)
+def allU32 (l : List Nat) : Bool := l.all (· < 4294967296)
 
 def handle : List String → String
+  | ["geom", rmeta, stamp, nv, nf, coords, faces, vol] =>
+      match parseBool? rmeta, parseHex? stamp, nv.toNat?, nf.toNat?, parseNatList? coords, parseIntList? faces,
+            parseVol? vol with
+      | some rmeta, some stamp, some nv, some nf, some coords, some faces, some vol =>
+          if !(allU32 coords) || coords.length ≠ 3 * nv || faces.length ≠ 3 * nf
+             || !((vol.map asciiOk).getD true) then "bad-op" else
+          match writeGeometry stamp nv nf coords faces vol with
+          | .error e => errStr e
+          | .ok file =>
+            match readGeometry rmeta file with
+            | .error e => "ok " ++ hexOf file ++ " R" ++ errStr e
+            | .ok g => "ok " ++ hexOf file ++ " stamp=" ++ hexOf g.stamp ++ " nv=" ++ toString g.nv ++
+                " nf=" ++ toString g.nf ++ " coords=" ++ showList g.coords ++ " faces=" ++ showList g.faces ++
+                " vol=" ++ showVol g.vol
+      | _, _, _, _, _, _, _ => "bad-op"
+  | ["morph", shape, vals, fnum] =>
+      match parseNatList? shape, parseNatList? vals, fnum.toInt? with
+      | some shape, some vals, some fnum =>
+          if !(allU32 vals) || vals.length ≠ prod shape then "bad-op" else
+          match writeMorph shape vals fnum with
+          | .error e => errStr e
+          | .ok file =>
+            match readMorph file with
+            | .error e => "ok " ++ hexOf file ++ " R" ++ errStr e
+            | .ok v => "ok " ++ hexOf file ++ " " ++ showList v
+      | _, _, _ => "bad-op"
+  | ["annot", orig, fill, has5, labels, rows, names] =>
+      match parseBool? orig, parseBool? fill, parseBool? has5, parseIntList? labels, parseRows? rows,
+            parseHexList? ";" names with
+      | some orig, some fill, some has5, some labels, some rows, some names =>
+          match writeAnnot labels rows has5 names fill with
+          | .error e => errStr e
+          | .ok file =>
+            match readAnnot orig file with
+            | .error e => "ok " ++ hexOf file ++ " R" ++ errStr e
+            | .ok a => "ok " ++ hexOf file ++ " labels=" ++ showList a.labels ++ " ctab=[" ++
+                ",".intercalate (a.ctab.map showRow) ++ "] names=" ++ showHexList a.names
+      | _, _, _, _, _, _ => "bad-op"
+  | ["mgh", shape, dt, data, aff, setz, sets] =>
+      match parseNatList? shape, parseNatList? data, parseNatList? aff, parseOptNatList? setz, parseSets? sets with
+      | some shape, some data, some aff, some setz, some sets =>
+          if aff.length ≠ 3 || !(allU32 aff) || !(allU32 data) || !((setz.map allU32).getD true)
+             || data.length ≠ prod shape then "bad-op" else
+          match mghSaveLoad shape dt data aff (zeros 48) setz sets with
+          | .error e => errStr e
+          | .ok o => "ok hz=" ++ showList o.hz ++ " file=" ++ hexOf o.file ++ " shape=" ++ showList o.shape ++
+              " code=" ++ toString o.code ++ " zooms=" ++ showList o.zooms ++ " ftr=" ++ showList o.ftr ++
+              " data=" ++ showList o.data
+      | _, _, _, _, _ => "bad-op"
+  | ["zoom", shape, zs] =>
+      match parseNatList? shape, parseNatList? zs with
+      | some shape, some zs =>
+          if !(allU32 zs) then "bad-op" else
+          match setDataShape shape with
+          | .error e => errStr e
+          | .ok d =>
+            let h0 : MghHdr := ⟨d, 3, [1065353216, 1065353216, 1065353216], [0, 0, 0, 0, 0]⟩
+            match setZooms h0 zs with
+            | .error e => "ok dims=" ++ showList d.toList ++ " shape=" ++ showList (getDataShape d) ++ " nd=" ++
+                toString (ndims d) ++ " " ++ errStr e
+            | .ok h => "ok dims=" ++ showList d.toList ++ " shape=" ++ showList (getDataShape d) ++ " nd=" ++
+                toString (ndims d) ++ " zooms=" ++ showList (getZooms h)
+      | _, _ => "bad-op"
   | _ => "bad-op"
 
 end Nb.Drv.C19
